@@ -130,6 +130,11 @@ bool QXmppBookmarkManager::handleStanza(const QDomElement &stanza)
 {
     if (stanza.tagName() == u"iq") {
         if (QXmppPrivateStorageIq::isPrivateStorageIq(stanza)) {
+            // only responses are handled here; requests get the default error reply
+            if (const auto type = stanza.attribute(u"type"_s); type == u"get" || type == u"set") {
+                return false;
+            }
+
             QXmppPrivateStorageIq iq;
             iq.parse(stanza);
 
